@@ -11,7 +11,16 @@ intakes, time steps and polls, any order in which the in-flight futures are poll
 or late polls, polls of requests that are not ready or do not exist.
 
 Hypothesis `EchoesKey c as` (only where stated): every request handed to the manager is answered
-by the client *about that order* (same key and static fields; error names the manager knows).
+by the client *about that order* (same key and static fields; error names — instrument or asset —
+the manager knows).
+
+The client's answer ranges over the WHOLE of `UnindexedOrderError` (review C07-4): `Ok`, every
+`Rejected(ApiError::_)` (instrument-carrying, asset-carrying — indexed through `find_asset_index`,
+filtered when the asset is not configured — and nameless) and `Connectivity(_)` as the client's own
+answer. One consequence is visible in `attribution`: the error VALUE `Connectivity(Timeout)` is
+carried by an event when the future timed out *or* when the client itself answered
+`Err(Connectivity(Timeout))` — the code builds the same `OrderError` in both cases
+(`client_timeout_is_not_manager_timeout`, `client_timeout_event_is_the_managers_timeout_event`).
 Without it the code skips the answer (`continue`, manager.rs:282-289 / 308-315) or attributes it to
 whatever key the client wrote — see the `example`s at the end.
 
@@ -182,12 +191,17 @@ theorem fate_prompt (c : Cfg) (as : List Action) :
 /-- (3) `attribution` — every event on the channel belongs to an accepted request: same kind, same
 exchange / instrument / strategy / client order id as the request, the manager's own exchange, a
 configured instrument; a timeout event carries the request's own static fields and the timeout
-error, a response event the client's verdict. -/
+error, a response event the client's verdict. Over the full reply alphabet the last conjunct reads:
+the event carries `Connectivity(Timeout)` exactly when the future timed out or the client's own
+answer was `Err(Connectivity(Timeout))` (for every other answer — all of the former alphabet — it is
+the former `fate = timeout ↔ outcome = timeout`: `attribution_timeout_iff`). -/
 theorem attribution (c : Cfg) (as : List Action) (he : EchoesKey c as) :
     ∀ e ∈ (run c init as).out, ∃ x ∈ (run c init as).resolved,
       x.req ∈ (run c init as).accepted ∧ e = x.event ∧
       e.kind = x.req.spec.kind ∧ e.key = x.req.spec.key ∧ e.exchange = c.exchange ∧
-      e.key.instrument < c.nInstr ∧ (x.fate = .timeout ↔ e.outcome = .timeout) := by
+      e.key.instrument < c.nInstr ∧
+      (e.outcome = .timeout ↔
+        x.fate = .timeout ∨ x.req.spec.script.reply = .connectivity .timeout) := by
   intro e hm
   rw [one_event_per_resolution c as he] at hm
   obtain ⟨x, hx, rfl⟩ := List.mem_map.mp hm
@@ -203,8 +217,8 @@ theorem attribution (c : Cfg) (as : List Action) (he : EchoesKey c as) :
   · cases hf : x.fate <;>
       simp [Resolution.event, specEvent, specResponseEvent, specTimeoutEvent, hf, hconf.2]
   · cases hf : x.fate
-    · simp only [Resolution.event, specEvent, specResponseEvent, hf, reduceCtorEq, false_iff]
-      cases x.req.spec.script.reply <;> simp
+    · simp only [Resolution.event, specEvent, specResponseEvent, hf, reduceCtorEq, false_or]
+      rcases x.req.spec.script.reply with _ | _ | i | (_ | _ | _) | a | a | k <;> simp
       split <;> simp
     · simp [Resolution.event, specEvent, specTimeoutEvent, hf]
 
@@ -291,7 +305,7 @@ theorem eventually_resolved_partial (c : Cfg) (as : List Action) (he : EchoesKey
 /-! ## Non-vacuity and witnesses -/
 
 /-- configuration used below: exchange 0, two instruments, request timeout 2 -/
-def c0 : Cfg := ⟨0, 2, 2⟩
+def c0 : Cfg := { exchange := 0, nInstr := 2, timeout := 2 }
 /-- a faithful open request on instrument 1 answered `ok` after `d` ticks (`none`: never) -/
 def q0 (d : Option Nat) : ReqSpec := ⟨.open, ⟨0, 1, 5, 7⟩, 3, ⟨d, .ok, false, ⟨0, 1, 5, 7⟩, 3⟩⟩
 /-- a faithful cancel for the same client order id, rejected after 1 tick -/
@@ -459,18 +473,16 @@ not depend on the payload: the two theorems below state it for an **arbitrary** 
 arbitrary echoed body — the payload only decides whether an event is emitted at all
 (`unanswered_iff`).
 
-**Limits of the model type `Reply`** (`Model/ExecManager.lean`, not edited): it has three
-constructors (`ok`, `rejected`, `invalidIns i`). It cannot express (a) a client that *answers* with
-`Err(UnindexedOrderError::Connectivity(_))` (indexer.rs:253-258 passes it through unchanged): in
-the code such a response yields an event that is indistinguishable from the manager's own timeout
-event, so the last conjunct below (`fate = timeout ↔ outcome = timeout`) holds in the model by
-construction and is NOT a statement about such clients; (b) the asset-carrying errors
-`ApiError::AssetInvalid / BalanceInsufficient(asset, _)`, which go through `find_asset_index`
-(indexer.rs:203-220) and are filtered exactly like `invalidIns` with an unknown name — the model
-has no asset table; `invalidIns i` with `i ≥ nInstr` is the representative of every "name the
-indexer does not know" case; (c) `RateLimit`, `OrderAlreadyCancelled`, `OrderAlreadyFullyFilled`,
-which carry no name and behave like `rejected`. Extending `Reply` needs a model (and driver /
-harness) change and is left as recorded. -/
+**The model type `Reply`** covers the whole of `UnindexedOrderError` since the extension that
+followed review item C07-4 (`Model/ExecManager.lean`): (a) `connectivity e` — a client that
+*answers* with `Err(UnindexedOrderError::Connectivity(_))` (indexer.rs:253-258 passes it through
+unchanged): for `e = timeout` the code builds the SAME `OrderError` value as the manager's own
+timeout, so the last conjunct of the attribution theorems is now an `↔` with a disjunction
+(`outcome = timeout ↔ fate = timeout ∨ reply = connectivity timeout`), no longer true "by
+construction"; (b) `assetInvalid a` / `balanceInsufficient a`, which go through `find_asset_index`
+(indexer.rs:203-220) and are filtered when the asset is not configured (`Cfg.nAssets`,
+`unanswered_iff`); (c) `nameless k` — `RateLimit`, `OrderAlreadyCancelled`,
+`OrderAlreadyFullyFilled`, which carry no name and are never filtered. -/
 
 /-- The client echoes the request's own key; nothing is assumed about the payload (reply, error
 names, echoed static fields). -/
@@ -480,8 +492,8 @@ def EchoesKeyOnly (as : List Action) : Prop :=
 /-- (3a) `attribution_unconditional` — no hypothesis at all, any reply payload: every event on the
 channel comes from exactly the resolution of an accepted request, has that request's kind, carries
 the key the client echoed (if it is the client's response) or the request's own key (if it is the
-timeout), names the manager's own exchange and a configured instrument, and says `timeout` exactly
-when the request's future timed out. -/
+timeout), names the manager's own exchange and a configured instrument, and carries `Connectivity(Timeout)`
+exactly when the request's future timed out or the client's own answer was that error. -/
 theorem attribution_unconditional (c : Cfg) (as : List Action) :
     ∀ e ∈ (run c init as).out, ∃ x ∈ (run c init as).resolved,
       x.req ∈ (run c init as).accepted ∧ eventOf c x.req x.fate = some e ∧
@@ -489,7 +501,8 @@ theorem attribution_unconditional (c : Cfg) (as : List Action) :
       (x.fate = .response → e.key = x.req.spec.script.echo) ∧
       (x.fate = .timeout → e.key = x.req.spec.key) ∧
       e.exchange = c.exchange ∧ e.key.instrument < c.nInstr ∧
-      (x.fate = .timeout ↔ e.outcome = .timeout) := by
+      (e.outcome = .timeout ↔
+        x.fate = .timeout ∨ x.req.spec.script.reply = .connectivity .timeout) := by
   intro e hm
   have h := inv_reach c as
   rw [h.out] at hm
@@ -506,13 +519,15 @@ theorem attribution_unconditional (c : Cfg) (as : List Action) :
 /-- (3b) `attribution_any_reply` — `attribution` for an arbitrary reply payload: if the clients
 echo the request's key (`EchoesKeyOnly`; nothing about reply, error names or static fields), every
 event on the channel belongs to an accepted request: same kind, same exchange / instrument /
-strategy / client order id, the manager's own exchange, a configured instrument; `timeout` exactly
-for timed-out futures. -/
+strategy / client order id, the manager's own exchange, a configured instrument;
+`Connectivity(Timeout)` exactly for timed-out futures and for clients answering that error. -/
 theorem attribution_any_reply (c : Cfg) (as : List Action) (hk : EchoesKeyOnly as) :
     ∀ e ∈ (run c init as).out, ∃ x ∈ (run c init as).resolved,
       x.req ∈ (run c init as).accepted ∧ eventOf c x.req x.fate = some e ∧
       e.kind = x.req.spec.kind ∧ e.key = x.req.spec.key ∧ e.exchange = c.exchange ∧
-      e.key.instrument < c.nInstr ∧ (x.fate = .timeout ↔ e.outcome = .timeout) := by
+      e.key.instrument < c.nInstr ∧
+      (e.outcome = .timeout ↔
+        x.fate = .timeout ∨ x.req.spec.script.reply = .connectivity .timeout) := by
   intro e hm
   obtain ⟨x, hx, hacc, hev, h1, h2, h2', h3, h4, h5⟩ := attribution_unconditional c as e hm
   refine ⟨x, hx, hacc, hev, h1, ?_, h3, h4, h5⟩
@@ -524,14 +539,221 @@ theorem attribution_any_reply (c : Cfg) (as : List Action) (hk : EchoesKeyOnly a
 
 /-- (3c) `unanswered_iff` — exactly when "neither" happens (a request leaves flight with no event,
 the `continue` of manager.rs:282-289 / 308-315), for any payload and without hypotheses: the future
-completed with the client's response and the indexer does not know the echoed key or the instrument
-named in the error. A timed-out future always yields its event. -/
+completed with the client's response and the indexer does not know the echoed key, or the
+instrument named in the error (`InstrumentInvalid`), or the ASSET named in the error
+(`AssetInvalid`, `BalanceInsufficient`: `find_asset_index` fails). A timed-out future always yields
+its event; so do connectivity errors and nameless API errors as the client's answer. -/
 theorem unanswered_iff (c : Cfg) (as : List Action) :
     ∀ x ∈ (run c init as).resolved,
       (eventOf c x.req x.fate = none ↔ x.fate = .response ∧
         (c.configured x.req.spec.script.echo = false ∨
-          ∃ i, x.req.spec.script.reply = .invalidIns i ∧ c.nInstr ≤ i)) :=
-  fun x _ => eventOf_none_iff c x.req x.fate
+          (∃ i, x.req.spec.script.reply = .invalidIns i ∧ c.nInstr ≤ i) ∨
+          (∃ a, (x.req.spec.script.reply = .assetInvalid a ∨
+                 x.req.spec.script.reply = .balanceInsufficient a) ∧ c.nAssets ≤ a))) := by
+  intro x _
+  rw [eventOf_none_iff c x.req x.fate]
+  have : x.req.spec.script.reply.unindexable c ↔
+      ((∃ i, x.req.spec.script.reply = .invalidIns i ∧ c.nInstr ≤ i) ∨
+       (∃ a, (x.req.spec.script.reply = .assetInvalid a ∨
+              x.req.spec.script.reply = .balanceInsufficient a) ∧ c.nAssets ≤ a)) := by
+    rcases x.req.spec.script.reply with _ | _ | i | (_ | _ | _) | a | a | k <;>
+      simp [Reply.unindexable]
+  rw [this]
+
+
+/-! ### C07-4 — the full reply alphabet: connectivity errors as the client's answer, asset-carrying
+and nameless API errors -/
+
+/-- No client of the schedule answers `Err(Connectivity(Timeout))` itself (true of every reply of
+the former alphabet `ok | rejected | invalidIns`). -/
+def NoClientTimeout (as : List Action) : Prop :=
+  ∀ q, Action.intake q ∈ as → q.script.reply ≠ .connectivity .timeout
+
+/-- (3d) `attribution_timeout_iff` — the former last conjunct of `attribution`, as an instance:
+when no client answers `Connectivity(Timeout)` itself, an event says `timeout` exactly when the
+request's future timed out. -/
+theorem attribution_timeout_iff (c : Cfg) (as : List Action) (hn : NoClientTimeout as) :
+    ∀ e ∈ (run c init as).out, ∃ x ∈ (run c init as).resolved,
+      eventOf c x.req x.fate = some e ∧ (x.fate = .timeout ↔ e.outcome = .timeout) := by
+  intro e hm
+  obtain ⟨x, hx, hacc, hev, _, _, _, _, _, h5⟩ := attribution_unconditional c as e hm
+  refine ⟨x, hx, hev, ?_⟩
+  have hne : x.req.spec.script.reply ≠ .connectivity .timeout := by
+    rcases accepted_run c as init x.req hacc with h | h
+    · simp [init] at h
+    · exact hn _ h
+  rw [h5]; simp [hne]
+
+/-- (5a) `client_timeout_is_not_manager_timeout` — a client that ANSWERS
+`Err(UnindexedOrderError::Connectivity(ConnectivityError::Timeout))` within the request timeout:
+whatever the schedule, the request's future completes with fate `response`, never `timeout`; the
+event is the RESPONSE event — built by `process_*_response` from the client's answer: it carries
+the key and the static fields the client echoed (not the request's), it went through the indexer
+(an unconfigured echoed key filters it, which never happens to the manager's own timeout event),
+it is on the channel, and it carries the client's error. What is **not** true in the code — and
+therefore not in the model — is that the error VALUE differs from the manager's timeout: both are
+`OrderError::Connectivity(ConnectivityError::Timeout)`
+(`client_timeout_event_is_the_managers_timeout_event`). -/
+theorem client_timeout_is_not_manager_timeout (c : Cfg) (as : List Action) :
+    ∀ x ∈ (run c init as).resolved, ∀ d,
+      x.req.spec.script.reply = .connectivity .timeout →
+      x.req.spec.script.delay = some d → d ≤ c.timeout →
+      x.fate = .response ∧
+      (c.configured x.req.spec.script.echo = false → eventOf c x.req x.fate = none) ∧
+      (c.configured x.req.spec.script.echo = true →
+        ∃ e ∈ (run c init as).out, eventOf c x.req x.fate = some e ∧
+          e.kind = x.req.spec.kind ∧ e.key = x.req.spec.script.echo ∧
+          e.body = (if x.req.spec.kind = .open then x.req.spec.script.echoBody else 0) ∧
+          e.outcome = .timeout) := by
+  intro x hx d hr hd hle
+  have hf := fate_within_timeout c as x hx d hd hle
+  have h := inv_reach c as
+  refine ⟨hf, ?_, ?_⟩
+  · intro hc
+    rw [eventOf_none_iff]; exact ⟨hf, Or.inl hc⟩
+  · intro hc
+    have hev : eventOf c x.req x.fate = some
+        ⟨x.req.spec.kind, x.req.spec.script.echo.exchange, x.req.spec.script.echo,
+         if x.req.spec.kind = .open then x.req.spec.script.echoBody else 0, .timeout⟩ := by
+      rw [hf]
+      cases hk : x.req.spec.kind <;>
+        simp [eventOf, hk, processOpenResponse, processCancelResponse, indexKey, hc, openOutcome,
+          hr, indexReply]
+    refine ⟨_, ?_, hev, rfl, rfl, rfl, rfl⟩
+    rw [h.out]
+    exact List.mem_filterMap.mpr ⟨x, hx, hev⟩
+
+/-- (5b) the finding behind (5a): for a faithful client the RESPONSE event for the answer
+`Err(Connectivity(Timeout))` and the manager's own TIMEOUT event for the same request are the SAME
+value — an observer of the response channel cannot tell a client-side timeout answered in time from
+the manager's timeout (only the arrival time differs: `fate` (2), a timeout fate never resolves
+before the deadline). For `ExchangeOffline` / `Socket` the events differ. -/
+theorem client_timeout_event_is_the_managers_timeout_event (q : ReqSpec) :
+    (q.script.reply = .connectivity .timeout → specEvent q .response = specEvent q .timeout) ∧
+    (q.script.reply = .connectivity .offline →
+      (specEvent q .response).outcome = .offline ∧ specEvent q .response ≠ specEvent q .timeout) ∧
+    (q.script.reply = .connectivity .socket →
+      (specEvent q .response).outcome = .socket ∧ specEvent q .response ≠ specEvent q .timeout) := by
+  refine ⟨?_, ?_, ?_⟩ <;> intro h <;>
+    simp [specEvent, specResponseEvent, specTimeoutEvent, h]
+
+/-- (5c) `connectivity_and_nameless_never_filtered` — a connectivity error or a nameless API error
+(`OrderRejected`, `RateLimit`, `OrderAlreadyCancelled`, `OrderAlreadyFullyFilled`) as the client's
+answer is never the reason for "neither": if the echoed key is configured the completed future
+yields its event, carrying exactly that error. -/
+theorem connectivity_and_nameless_never_filtered (c : Cfg) (as : List Action) :
+    ∀ x ∈ (run c init as).resolved, x.fate = .response →
+      c.configured x.req.spec.script.echo = true →
+      (match x.req.spec.script.reply with
+        | .connectivity _ | .nameless _ | .rejected => True
+        | _ => False) →
+      ∃ e ∈ (run c init as).out, eventOf c x.req x.fate = some e ∧
+        e.outcome = (specResponseEvent x.req.spec).outcome := by
+  intro x hx hf hc hr
+  have h := inv_reach c as
+  have hsome : ∃ e, eventOf c x.req x.fate = some e := by
+    cases hev : eventOf c x.req x.fate with
+    | some e => exact ⟨e, rfl⟩
+    | none =>
+      have := (eventOf_none_iff c x.req x.fate).mp hev
+      rcases this.2 with h1 | h1
+      · rw [hc] at h1; cases h1
+      · rcases hrp : x.req.spec.script.reply with _ | _ | i | (_ | _ | _) | a | a | k <;>
+          simp_all [Reply.unindexable]
+  obtain ⟨e, hev⟩ := hsome
+  refine ⟨e, by rw [h.out]; exact List.mem_filterMap.mpr ⟨x, hx, hev⟩, hev, ?_⟩
+  rw [hf] at hev
+  cases hk : x.req.spec.kind <;>
+    rcases hrp : x.req.spec.script.reply with _ | _ | i | (_ | _ | _) | a | a | k <;>
+    simp_all [eventOf, processOpenResponse, processCancelResponse, indexKey, openOutcome,
+      indexReply, specResponseEvent] <;> (subst hev; rfl)
+
+/-- (5d) `balance_insufficient_is_answered` — `Rejected(ApiError::BalanceInsufficient(asset, _))`,
+the answer the mock exchange gives for an order the balance cannot cover (C08 `accept_iff_funds`;
+exchange/mock/mod.rs:295-301, 329-335), and `AssetInvalid(asset, _)` likewise: when the client
+echoes a configured key, the response is indexable — the request is ANSWERED with an event carrying
+the indexed asset — exactly when the manager's `ExecutionInstrumentMap` knows the asset
+(`find_asset_index`); otherwise the response is filtered: the request leaves flight with NO event
+("neither"). For systems produced by the builder the asset IS configured: the mock names the
+instrument's own quote asset (buy) or base asset (sell), which `generate_execution_instrument_map`
+puts into the manager's map — sub-check C04M `same_assets_for_every_order` /
+`same_instrument_same_assets` (`m.findAssetIndex e.quote = .ok x.value.quote`); C04M
+`manager_names_known` is the instrument-name analogue (the mock never answers `InstrumentInvalid`
+to a request that came through its own manager). -/
+theorem balance_insufficient_is_answered (c : Cfg) (as : List Action) :
+    ∀ x ∈ (run c init as).resolved, ∀ a,
+      (x.req.spec.script.reply = .balanceInsufficient a ∨
+        x.req.spec.script.reply = .assetInvalid a) →
+      x.fate = .response → c.configured x.req.spec.script.echo = true →
+      (a < c.nAssets →
+        ∃ e ∈ (run c init as).out, eventOf c x.req x.fate = some e ∧
+          e.key = x.req.spec.script.echo ∧ e.outcome = (specResponseEvent x.req.spec).outcome ∧
+          (e.outcome = .balanceInsufficient a ∨ e.outcome = .assetInvalid a)) ∧
+      (c.nAssets ≤ a → eventOf c x.req x.fate = none) := by
+  intro x hx a hr hf hc
+  have h := inv_reach c as
+  refine ⟨?_, ?_⟩
+  · intro ha
+    have hev : ∃ e, eventOf c x.req x.fate = some e ∧ e.key = x.req.spec.script.echo ∧
+        e.outcome = (specResponseEvent x.req.spec).outcome ∧
+        (e.outcome = .balanceInsufficient a ∨ e.outcome = .assetInvalid a) := by
+      rw [hf]
+      cases hk : x.req.spec.kind <;> rcases hr with hr | hr <;>
+        simp [eventOf, hk, processOpenResponse, processCancelResponse, indexKey, hc, openOutcome,
+          hr, indexReply, findAssetIndex, ha, specResponseEvent]
+    obtain ⟨e, hev, h1, h2, h3⟩ := hev
+    exact ⟨e, by rw [h.out]; exact List.mem_filterMap.mpr ⟨x, hx, hev⟩, hev, h1, h2, h3⟩
+  · intro ha
+    rw [eventOf_none_iff]
+    refine ⟨hf, Or.inr ?_⟩
+    rcases hr with hr | hr <;> simp [hr, Reply.unindexable, ha]
+
+/-- (5e) the faithful-client form: under `EchoesKey` (which demands that error names are
+configured) a `BalanceInsufficient` / `AssetInvalid` / connectivity / nameless answer is the event
+on the channel, attributed to the request's own key (`one_event_per_resolution` + `specEvent`). -/
+theorem error_answers_are_delivered (c : Cfg) (as : List Action) (he : EchoesKey c as) :
+    ∀ x ∈ (run c init as).resolved, x.fate = .response →
+      specResponseEvent x.req.spec ∈ (run c init as).out ∧
+      (specResponseEvent x.req.spec).key = x.req.spec.key := by
+  intro x hx hf
+  refine ⟨?_, rfl⟩
+  rw [one_event_per_resolution c as he]
+  exact List.mem_map.mpr ⟨x, hx, by simp [Resolution.event, specEvent, hf]⟩
+
+/-! #### Non-vacuity and witnesses for the extended alphabet -/
+
+/-- `c0` with two configured assets -/
+def c1 : Cfg := { c0 with nAssets := 2 }
+/-- a faithful open request whose client answers `rp` after `d` ticks -/
+def qr (d : Nat) (rp : Reply) : ReqSpec := ⟨.open, ⟨0, 1, 5, 7⟩, 3, ⟨some d, rp, false, ⟨0, 1, 5, 7⟩, 3⟩⟩
+
+/-- a client answering `Connectivity(Timeout)` after 1 tick (timeout 2), polled at once: fate
+`response`, resolved at time 1 — before the deadline, which a timeout fate never is — and the event
+equals the one the manager's own timeout produces for a silent client at time 2 -/
+example :
+    (run c0 init [.intake (qr 1 (.connectivity .timeout)), .tick 1, .poll 0]).resolved.map
+        (fun x => (x.fate, x.time)) = [(.response, 1)] ∧
+    (run c0 init [.intake (qr 1 (.connectivity .timeout)), .tick 1, .poll 0]).out =
+      (run c0 init [.intake (q0 none), .tick 2, .poll 0]).out ∧
+    (run c0 init [.intake (qr 1 (.connectivity .offline)), .tick 1, .poll 0]).out.map (·.outcome)
+      = [.offline] := by decide
+
+/-- `BalanceInsufficient(asset 1)`: answered when the asset is configured (`c1`), filtered — the
+request leaves flight with no event — when it is not (`c0` has no assets; asset 2 is unknown to
+`c1`); `RateLimit` is always delivered -/
+example :
+    (run c1 init [.intake (qr 1 (.balanceInsufficient 1)), .tick 1, .poll 0]).out.map (·.outcome)
+      = [.balanceInsufficient 1] ∧
+    (let s := run c0 init [.intake (qr 1 (.balanceInsufficient 1)), .tick 1, .poll 0]
+     s.out = [] ∧ s.pending = [] ∧ s.resolved.length = 1) ∧
+    (run c1 init [.intake (qr 1 (.assetInvalid 2)), .tick 1, .poll 0]).out = [] ∧
+    (run c0 init [.intake (qr 1 (.nameless .rateLimit)), .tick 1, .poll 0]).out.map (·.outcome)
+      = [.nameless .rateLimit] := by decide
+
+/-- `EchoesKey` is satisfiable with the new answers (configured asset), and excludes the unknown one -/
+example : echoes c1 (qr 1 (.balanceInsufficient 1)) = true ∧ echoes c1 (qr 1 (.connectivity .timeout)) = true ∧
+    echoes c1 (qr 1 (.nameless .orderAlreadyCancelled)) = true ∧ echoes c0 (qr 1 (.balanceInsufficient 1)) = false := by
+  decide
 
 /-! ### Non-vacuity of the fairness hypothesis, and its necessity -/
 
